@@ -13,6 +13,9 @@
  *   ai <xai> <k> <rest> <hexkeys>  led_input(pref, "", ...) with pref = k blanks (+ "x" when rest = 1), the ai
  *                                  option set to xai and the keys (ending in ESC) in the input queue;
  *                                  answers the hex of the returned text or  null
+ *   trim <hex>                     uc_trim() of uc.c (since a04410e; a weak reference: "nofn" when /repo has none) on a
+ *                                  heap block of exactly strlen+1 bytes; answers the hex of what is left
+ *   cutstore <size> <hex>          snprintf(buf, size, "%s", s) into a heap block of exactly size bytes, then uc_trim(buf)
  */
 #define tag_find probe_tag_find
 #define main neatvi_main
@@ -82,6 +85,31 @@ static void do_help(char *hex)
 	free(raw);
 }
 
+void uc_trim(char *s) __attribute__((weak));
+
+static void do_trim(int size, char *hex)
+{
+	int len;
+	char *raw = pu_unhex(hex, &len, 0, 0);
+	char *b;
+	if (!uc_trim) {
+		fprintf(ans, "nofn\n");
+		free(raw);
+		return;
+	}
+	if (size > 0) {
+		b = malloc(size);
+		snprintf(b, size, "%s", raw);
+	} else {
+		b = exact(raw, strlen(raw));
+	}
+	uc_trim(b);
+	put_hex(b, strlen(b));
+	fprintf(ans, "\n");
+	free(b);
+	free(raw);
+}
+
 static void nl_stub(void)
 {
 }
@@ -140,6 +168,10 @@ int main(void)
 			do_help(w[1]);
 		else if (n == 5 && !strcmp(w[0], "ai"))
 			do_ai(atoi(w[1]), atoi(w[2]), atoi(w[3]), w[4]);
+		else if (n == 2 && !strcmp(w[0], "trim"))
+			do_trim(0, w[1]);
+		else if (n == 3 && !strcmp(w[0], "cutstore"))
+			do_trim(atoi(w[1]), w[2]);
 		else
 			fprintf(ans, "?\n");
 		fflush(ans);
